@@ -192,7 +192,12 @@ impl Property for C03 {
                 continue;
             }
             checked_rows += 1;
-            // the call made for this row is the last one logged before the next next()
+            // the call made for this row is the one logged during this next() (exactly one,
+            // C02; if the crate does not keep to that, attribution cannot be checked here)
+            if real.log_len_before[k + 1] != real.log_len_before[k] + 1 {
+                out.discard("call-protocol-broken");
+                return out;
+            }
             let call = &real.log[real.log_len_before[k + 1] - 1];
             let vals: Vec<&OutVal> = call.answer.iter().map(|(_, v)| v).collect();
             if vals.len() >= 2 && vals.windows(2).any(|w| w[0] != w[1]) {
